@@ -321,7 +321,7 @@ theorem c01sS_ok : SurplusOk 1 1 c01wS c01sS where
   nodup := by decide
   blocked := by decide +kernel
   still := ⟨by decide +kernel, by decide +kernel, by decide +kernel, by decide +kernel, by decide +kernel, by decide +kernel⟩
-  base := ⟨by decide +kernel, by decide +kernel, by decide +kernel, by decide +kernel, by decide +kernel⟩
+  base := ⟨by decide +kernel, by decide +kernel, by decide +kernel, by decide +kernel, by decide +kernel, by decide +kernel⟩
   procs := by
     intro pid hp
     have : workerOkB c01sS pid = true := by
@@ -388,7 +388,7 @@ theorem c01sT_ok : SurplusStubOk 1 1 c01wS c01sT where
   nodup := by decide
   blocked := by decide +kernel
   still := ⟨by decide +kernel, by decide +kernel, by decide +kernel, by decide +kernel, by decide +kernel, by decide +kernel⟩
-  base := ⟨by decide +kernel, by decide +kernel, by decide +kernel, by decide +kernel, by decide +kernel⟩
+  base := ⟨by decide +kernel, by decide +kernel, by decide +kernel, by decide +kernel, by decide +kernel, by decide +kernel⟩
   procs := by
     intro pid hp
     have : workerOkB c01sT pid = true := by
